@@ -1577,7 +1577,7 @@ def hostile_texts(run):
             out.append(m)
     # systematic: every single-token edit of every declaration form (quick: substitutions, deletions
     # and glued insertions; thorough: plain insertions too)
-    kinds = ("sub", "del", "glue") if run.tier == "quick" else ("sub", "del", "ins", "glue")
+    kinds = ("sub", "del", "glue") if run.tier == "quick" else ("sub", "del", "ins", "glue", "sub2")
     edits = sorted(set(specgen.single_edits(kinds=kinds)))
     run.cov["systematic_single_token_edits"] = len(edits)
     out += edits
